@@ -296,10 +296,10 @@ CHECKS = {
         generated=[],
         leanchecker=True,
         level_text="Proved in Lean 4 (PP mode): C16_table — for every L2 chain with at most one GER event per block and EVERY sequence of polls (tips advancing by any amount, repeated or lagging) the table equals the fold of the insert/remove events of all blocks up to the furthest tip seen; "
-                   "firstAfter_spec / C16_query — the query returns an injected, not-removed root with the smallest index at or after X and finds one whenever one exists. FEP mode: C16_fep_sound — after any sequence of polls (any tips, the L2 GER map answering differently at every poll) every row of the index is an L1 info leaf that the L2 GER map held when the row's block was polled; C16_fep_latest — the row filed at a poll is the last injected leaf at or after the downloader's start index. PARTIAL: reorgs are outside the theorems; a removal that is reorged away is not undone (KNOWN-FINDING F4, replayed). "
+                   "firstAfter_spec / C16_query — the query returns an injected, not-removed root with the smallest index at or after X and finds one whenever one exists. FEP mode: C16_fep_sound — after any sequence of polls (any tips, the L2 GER map answering differently at every poll) every row of the index is an L1 info leaf that the L2 GER map held when the row's block was polled; C16_fep_latest — the row filed at a poll is the last injected leaf at or after the downloader's start index. C16_table_ops / C16_query_ops — the same for the FULL history: any sequence of polls, restarts of the node at any point and reorgs at any block (the chain replaced from that block on), under the one hypothesis that no reorg drops an already processed removal. PARTIAL: that excluded case is real — C16_reorg_false_with_removal proves the witness on the model, KNOWN-FINDING F4 replays it on the real code. "
                    "Tie: the real PP downloader (real log parsing through the contract binding, L1 leaf lookups that lag) and the real FEP downloader (eth_call on the L2 GER map) feeding the real processor as the driver does, over a scripted L2 client whose tip jumps by 1-12 blocks between polls, with restarts and reorgs, vs the compiled model; "
                    "monitor = the property evaluated on the implementation's answers. Genuine defect found and fixed in /repo: F12 (the PP downloader queried only the new tip block).",
-        level_note="Trusted: Lean kernel; model/code correspondence (generator-bounded); FEP completeness (a root injected and never seen at a poll tip is missed by design of that downloader) is not a theorem; restarts are covered by correspondence (the theorems are for one downloader run).",
+        level_note="Trusted: Lean kernel; model/code correspondence (generator-bounded); FEP completeness (a root injected and never seen at a poll tip is missed by design of that downloader) is not a theorem; FEP restarts/reorgs are covered by correspondence only.",
         rule="seeded worlds: chain growing by 1-12 blocks between polls, 35% of blocks with a GER event (25% removals in two thirds of the worlds), 20% of insertions whose L1 leaf is indexed late, restarts 20%, reorgs 12%; every fourth world in FEP mode; queries for boundary and random indices after each poll; distinct non-trivial = distinct (world, poll) pairs",
         assumptions=["at most one GER event per L2 block (the table's primary key)", "fixed chain between reorgs"],
         trusted_base=["hand model Model/LastGER.lean"],
